@@ -357,8 +357,8 @@ theorem talkMsg_isMsg (cfg : TunnelCfg) (ts : Nat) (m : Mem) (pdu : Nat) (f : Ca
     unfold zeroFill; rw [if_neg (by omega)]
 
 /-- **The listener's message parser reads exactly the frame** a well-formed message says. -/
-theorem listenMsg_of_isMsg (cfg : TunnelCfg) (m : Mem) (pdu : Nat) (f : CanFrame) (hwf : f.wf cfg)
-    (h : IsMsg cfg m pdu f) : listenMsg cfg m pdu = some (f.out, msgLen f) := by
+theorem listenMsg_of_isMsg (cfg : TunnelCfg) (m : Mem) (pdu rem : Nat) (f : CanFrame) (hwf : f.wf cfg)
+    (hrem : msgLen f ≤ rem) (h : IsMsg cfg m pdu f) : listenMsg cfg m pdu rem = some (f.out, msgLen f) := by
   obtain ⟨h32, h29, hstd, hlen, hdata, hflags⟩ := hwf
   obtain ⟨hType, hLen, hPad, hId, hEff, hRtr, hBrs, hFdf, hEsi, hData⟩ := h
   have hl64 : f.len ≤ 64 := by split at hlen <;> omega
@@ -382,7 +382,12 @@ theorem listenMsg_of_isMsg (cfg : TunnelCfg) (m : Mem) (pdu : Nat) (f : CanFrame
     intro ⟨h1, h2⟩
     have : f.canId.testBit 31 = false := by cases hb : f.canId.testBit 31 <;> simp [hb] at h1 ⊢
     have := hstd this; omega
-  rw [if_neg (by simp), if_neg hnostd]
+  have hchk : ¬ (msgLen f < 16 ∨ msgLen f > rem ∨ 16 + f.len > msgLen f ∨ f.len > maxData cfg) := by
+    unfold maxData
+    have : 16 + f.len ≤ msgLen f := by unfold msgLen; omega
+    have : 16 ≤ msgLen f := by unfold msgLen; omega
+    omega
+  rw [if_neg (by simp), if_neg hchk, if_neg hnostd]
   have hid := canId_recompose f.canId h32 h29
   have eEff : CAN_EFF_FLAG = 2 ^ 31 := by decide
   have eRtr : CAN_RTR_FLAG = 2 ^ 30 := by decide
@@ -414,13 +419,13 @@ theorem C19_message (cfg : TunnelCfg) (ts : Nat) (m : Mem) (pdu : Nat) (f : CanF
     let r := talkMsg cfg ts m pdu f
     r.2 = msgLen f ∧
     (∀ a, (a < pdu ∨ pdu + msgLen f ≤ a) → r.1 a = m a) ∧
-    (∀ M', (∀ a, pdu ≤ a → a < pdu + 16 + f.len → M' a = r.1 a) →
-      listenMsg cfg M' pdu = some (f.out, msgLen f)) := by
+    (∀ M' rem, msgLen f ≤ rem → (∀ a, pdu ≤ a → a < pdu + 16 + f.len → M' a = r.1 a) →
+      listenMsg cfg M' pdu rem = some (f.out, msgLen f)) := by
   intro r
   obtain ⟨h1, h2, h3⟩ := talkMsg_isMsg cfg ts m pdu f hwf
   refine ⟨h2, h3, ?_⟩
-  intro M' hM
-  exact listenMsg_of_isMsg cfg M' pdu f hwf (IsMsg_congr cfg _ M' pdu f hwf.2.2.2.2.1 hM h1)
+  intro M' rem hrem hM
+  exact listenMsg_of_isMsg cfg M' pdu rem f hwf hrem (IsMsg_congr cfg _ M' pdu f hwf.2.2.2.2.1 hM h1)
 
 theorem msgLen_bounds (cfg : TunnelCfg) (f : CanFrame) (hwf : f.wf cfg) :
     16 ≤ msgLen f ∧ msgLen f ≤ maxMsgSize cfg ∧ 16 + f.len ≤ msgLen f := by
@@ -454,7 +459,7 @@ theorem talkLoop_spec (cfg : TunnelCfg) (count : Nat) :
           (∀ a, at_ ≤ a → a < (talkLoop cfg count m at_ i frames).2.1 →
               M' a = (talkLoop cfg count m at_ i frames).1 a) →
           ∀ fuel, taken.length ≤ fuel →
-            listenLoop cfg M' base ((talkLoop cfg count m at_ i frames).2.1 - base) fuel (at_ - base)
+            (listenLoop cfg M' base ((talkLoop cfg count m at_ i frames).2.1 - base) fuel (at_ - base)).filterMap (·.2)
               = taken.map (fun p => p.2.out)) := by
   intro frames
   induction frames with
@@ -466,7 +471,7 @@ theorem talkLoop_spec (cfg : TunnelCfg) (count : Nat) :
       (simp only [List.nil_append, List.map_nil, List.sum_nil, List.length_nil, Nat.add_zero, Nat.mul_zero, true_and]
        refine ⟨Nat.le_refl _, hat, by omega, (by intros; first | rfl | trivial), ?_⟩
        intro M' base _ _ fuel _
-       exact listenLoop_done cfg M' base _ fuel)
+       rw [listenLoop_done cfg M' base _ fuel]; rfl)
   | cons p rest ih =>
     obtain ⟨ts, f⟩ := p
     intro m at_ i hwf hat
@@ -492,13 +497,13 @@ theorem talkLoop_spec (cfg : TunnelCfg) (count : Nat) :
         simp only [List.length_cons] at hfuel
         obtain ⟨fuel', rfl⟩ : ∃ k, fuel = k + 1 := ⟨fuel - 1, by omega⟩
         unfold listenLoop
-        rw [if_pos (by omega)]
+        rw [if_pos (by omega), if_neg (by omega)]
         have hbase : base + (at_ - base) = at_ := by omega
         rw [hbase]
-        have hmsg := h4 M' (fun a ha1 ha2 => by
+        have hmsg := h4 M' (R.2.1 - base - (at_ - base)) (by omega) (fun a ha1 ha2 => by
           rw [hM a ha1 (by omega), e6 a (Or.inl (by omega))])
         rw [hmsg]
-        simp only [List.map_cons]
+        simp only [List.map_cons, List.filterMap_cons]
         congr 1
         have hdone : at_ - base + msgLen f = at_ + msgLen f - base := by omega
         rw [hdone]
@@ -510,7 +515,7 @@ theorem talkLoop_spec (cfg : TunnelCfg) (count : Nat) :
       simp only [List.nil_append, List.map_nil, List.sum_nil, List.length_nil, Nat.add_zero, Nat.mul_zero, true_and]
       refine ⟨Nat.le_refl _, hat, by omega, (by intros; first | rfl | trivial), ?_⟩
       intro M' base _ _ fuel _
-      exact listenLoop_done cfg M' base _ fuel
+      rw [listenLoop_done cfg M' base _ fuel]; rfl
 
 /-! ### the control-format header -/
 
@@ -637,7 +642,7 @@ theorem C19_packet (cfg : TunnelCfg) (count udpSeq seq : Nat) (m : Mem) (frames 
       ∀ M', holds M' 0 r.1 →
         getNamed (cfSpec cfg) M' (if cfg.udp then 4 else 0) (cfLenField cfg)
           = (taken.map (fun p => msgLen p.2)).sum ∧
-        listenPacket cfg M' = taken.map (fun p => p.2.out) := by
+        listenPacket cfg M' r.1.length = taken.map (fun p => p.2.out) := by
   intro r hdr
   generalize hcf : (if cfg.udp then 4 else 0) = cfAt at *
   have hcf4 : cfAt ≤ 4 := by rw [← hcf]; split <;> omega
@@ -689,19 +694,23 @@ theorem C19_packet (cfg : TunnelCfg) (count udpSeq seq : Nat) (m : Mem) (frames 
   rw [Nat.sub_self] at hwalk
   have hlen' : R.2.1 - (cfAt + (cfSpec cfg).headerLen) = (taken.map (fun p => msgLen p.2)).sum := by omega
   rw [hlen'] at hwalk
-  unfold listenPacket
+  unfold listenPacket listenWalk
+  rw [read_length]
+  have hge : cfAt + (cfSpec cfg).headerLen + (taken.map (fun p => msgLen p.2)).sum = R.2.1 := by omega
+  have hhl12 : 12 ≤ (cfSpec cfg).headerLen := by rw [hhl]; split <;> omega
+  rw [if_neg (by intro ⟨_, h⟩; omega)]
   simp only [hcf, hsub]
   obtain ⟨t, u, fd⟩ := cfg
   cases t
-  · simp only [cfSpec, cfLenField, Bool.false_eq_true, if_false] at hlenM' hwalk ⊢
-    rw [if_neg (by decide), if_pos trivial, hlenM']
-    have : Spec.ntscf.headerLen = 12 := rfl
-    rw [this] at hwalk
+  · simp only [cfSpec, cfLenField, Bool.false_eq_true, if_false] at hlenM' hwalk hge ⊢
+    have h12 : Spec.ntscf.headerLen = 12 := rfl
+    rw [h12] at hwalk hge
+    rw [if_neg (by omega), if_neg (by decide), if_pos trivial, hlenM', if_neg (by omega)]
     exact hwalk
-  · simp only [cfSpec, cfLenField, if_true] at hlenM' hwalk ⊢
-    rw [hlenM']
-    have : Spec.tscf.headerLen = 24 := rfl
-    rw [this] at hwalk
+  · simp only [cfSpec, cfLenField, if_true] at hlenM' hwalk hge ⊢
+    have h24 : Spec.tscf.headerLen = 24 := rfl
+    rw [h24] at hwalk hge
+    rw [if_neg (by omega), if_neg (by omega), hlenM', if_neg (by omega)]
     exact hwalk
 
 /-! ### any sequence of frames -/
@@ -719,7 +728,7 @@ theorem holds_recvBuf (stale : Byte) (pkt : List Byte) : holds (recvBuf stale pk
 theorem C19_stream (cfg : TunnelCfg) (count : Nat) (bufs : Nat → Mem) (stale : Byte) :
     ∀ (fuel udpSeq seq : Nat) (frames : List (Nat × CanFrame)), (∀ p ∈ frames, p.2.wf cfg) →
       let r := talkStream cfg count bufs fuel udpSeq seq frames
-      (r.1.flatMap (fun pkt => listenPacket cfg (recvBuf stale pkt))) ++ r.2.map (fun p => p.2.out)
+      (r.1.flatMap (fun pkt => listenPacket cfg (recvBuf stale pkt) pkt.length)) ++ r.2.map (fun p => p.2.out)
         = frames.map (fun p => p.2.out) ∧
       ∀ pkt ∈ r.1, pkt.length ≤ MAX_PDU_SIZE := by
   intro fuel
@@ -769,7 +778,7 @@ example :
       (3, { exFrameFd with canId := 0x400, len := 0, flags := 6 }), (4, exFrameFd)]
     let r := talkStream ⟨true, true, true⟩ 3 (fun _ _ => 0) 5 0 0 frames
     r.1.length = 1 ∧ r.2.length = 1 ∧
-    r.1.flatMap (fun pkt => listenPacket ⟨true, true, true⟩ (recvBuf 0 pkt)) = (frames.take 3).map (fun p => p.2.out) := by
+    r.1.flatMap (fun pkt => listenPacket ⟨true, true, true⟩ (recvBuf 0 pkt) pkt.length) = (frames.take 3).map (fun p => p.2.out) := by
   decide +kernel
 
 end O1722
